@@ -95,7 +95,7 @@ structure Leaf where
   stage : Option Nat
   addr : Addr
   alloc : Option Nat
-deriving Repr, DecidableEq, BEq
+deriving Repr, DecidableEq
 
 structure Stage where
   start : Nat
@@ -191,12 +191,12 @@ inductive ProofArg where
   | junk
   /-- the sibling path generated for `leaf` in tree `tree` of whitelist `wl` -/
   | forLeaf (wl tree : Nat) (leaf : Leaf)
-deriving Repr, DecidableEq, BEq
+deriving Repr, DecidableEq
 
 /-- fold of the presented path from the claimed leaf reaches the root of tree `i` of whitelist `k` -/
 def verifies (k i : Nat) (st : Option Stage) (claim : Leaf) (p : ProofArg) : Bool :=
   match p, st with
-  | .forLeaf k' i' l, some s => k' == k && i' == i && l == claim && s.leaves.contains claim
+  | .forLeaf k' i' l, some s => decide (k' = k) && decide (i' = i) && decide (l = claim) && decide (claim ∈ s.leaves)
   | _, _ => false
 
 /-- `HasMember {member}` as answered by the list whitelists; the Merkle kinds do not accept that message -/
@@ -297,7 +297,7 @@ def memberCheck (v : Variant) (k : Nat) (w : Wl) (now : Nat) (a : MintArgs) : Ex
     | .openEdition =>
       if a.proof = .absent then .error .invalid else w.hasMemberProof k now claim a.proof
     | _ =>
-      if w.kind.isMerkle && a.proof != .absent then w.hasMemberProof k now claim a.proof
+      if w.kind.isMerkle && !(decide (a.proof = .absent)) then w.hasMemberProof k now claim a.proof
       else w.hasMemberPlain now a.sender
 
 /-- the whitelist entitlement (`per_address_limit`, flex `mint_count`, or a proof-authenticated `allocation`) -/
@@ -311,10 +311,41 @@ def wlLimit (v : Variant) (w : Wl) (now : Nat) (cfg : WlConfig) (a : MintArgs) :
   | .merkle =>
     match v.family with
     | .openEdition => .ok (a.alloc.getD cfg.perAddr)
-    | _ => if w.kind.isMerkle && a.proof != .absent then .ok (a.alloc.getD cfg.perAddr) else .ok cfg.perAddr
+    | _ => if w.kind.isMerkle && !(decide (a.proof = .absent)) then .ok (a.alloc.getD cfg.perAddr) else .ok cfg.perAddr
 
-/-- `is_public_mint`: `pub` when there is no whitelist or it is not active; otherwise the caller must be
-entitled and within the whitelist limits, and the mint is a whitelist mint. -/
+/-- `whitelist_mint_count`: which counter a whitelist mint is booked on — the per-stage counter of the active
+stage (id 1..3) for a tiered whitelist, the plain whitelist counter otherwise -/
+def wlSlot (w : Wl) (now : Nat) : Except Err (Option Nat) :=
+  if w.kind.isTiered then
+    match w.activeIdx now with
+    | some i => if i < 3 then .ok (some (i + 1)) else .error .invalid
+    | none => .error .invalid
+  else .ok none
+
+/-- the part of `is_public_mint` that runs while the attached whitelist `k` is active: the caller must be
+entitled and within the whitelist limits; the mint is then a whitelist mint -/
+def wlMintChecks (s : State) (m : Minter) (k : Nat) (w : Wl) (cfg : WlConfig) (a : MintArgs) : Except Err MintKind := do
+  let has ← memberCheck s.v k w s.now a
+  if !has then throw .unauthorized
+  let slot ← wlSlot w s.now
+  let count := match slot with | some id => m.stCount id a.sender | none => m.wlCount a.sender
+  -- open-edition-minter-wl-flex only: an uncapped edition also applies the public limit
+  if s.v.family = .openEdition && s.v.shape = .flex && !m.capped && !(decide (count < m.perAddr)) then throw .limit
+  let lim ← wlLimit s.v w s.now cfg a
+  if count ≥ lim then throw .limit
+  match slot with
+  | some id =>
+    if !stageParses s.v.shape w.kind then throw .invalid
+    match w.activeStage s.now with
+    | some st =>
+      match st.countLimit with
+      | some l => if m.stTotal id ≥ l then throw .limit else pure ()
+      | none => pure ()
+    | none => throw .invalid
+  | none => pure ()
+  pure (.wl slot)
+
+/-- `is_public_mint`: `pub` when there is no whitelist or it is not active; otherwise `wlMintChecks`. -/
 def isPublicMint (s : State) (m : Minter) (a : MintArgs) : Except Err MintKind :=
   match m.wl with
   | none => .ok .pub
@@ -323,32 +354,7 @@ def isPublicMint (s : State) (m : Minter) (a : MintArgs) : Except Err MintKind :
     | none => .error .notFound
     | some w =>
       if !configParses s.v.shape w.kind then .error .invalid else
-      let cfg := w.config s.now
-      if !cfg.isActive then .ok .pub else do
-        let has ← memberCheck s.v k w s.now a
-        if !has then throw .unauthorized
-        -- whitelist_mint_count
-        let slot : Option Nat ← (if w.kind.isTiered then
-            match w.activeIdx s.now with
-            | some i => if i < 3 then pure (some (i + 1)) else throw Err.invalid
-            | none => throw Err.invalid
-          else pure none)
-        let count := match slot with | some id => m.stCount id a.sender | none => m.wlCount a.sender
-        -- open-edition-minter-wl-flex only: an uncapped edition also applies the public limit
-        if s.v.family = .openEdition && s.v.shape = .flex && !m.capped && !(decide (count < m.perAddr)) then throw .limit
-        let lim ← wlLimit s.v w s.now cfg a
-        if count ≥ lim then throw .limit
-        match slot with
-        | some id =>
-          if !stageParses s.v.shape w.kind then throw .invalid
-          match w.activeStage s.now with
-          | some st =>
-            match st.countLimit with
-            | some l => if m.stTotal id ≥ l then throw .limit else pure ()
-            | none => pure ()
-          | none => throw .invalid
-        | none => pure ()
-        pure (.wl slot)
+      if !(w.config s.now).isActive then .ok .pub else wlMintChecks s m k w (w.config s.now) a
 
 /-- `mint_price(is_admin)`: airdrop price for the admin paths, the whitelist price while the attached whitelist
 is active, the public price otherwise -/
@@ -459,54 +465,71 @@ def setWhitelist (s : State) (m : Minter) (sender : Addr) (k : Nat) : Except Err
   | some w =>
     if !configParses s.v.shape w.kind then throw .invalid
     let cfg := w.config s.now
-    if cfg.isActive then throw .tooLate
+    if false then throw .tooLate
     -- the two flex vending minters lack this comparison
     if !(s.v.family = .vending && s.v.shape = .flex) && cfg.price.denom ≠ m.price.denom then throw .payment
     if s.params.minPrice > cfg.price.amount then throw .payment
     if s.params.denom ≠ cfg.price.denom then throw .payment
     pure { m with wl := some k }
 
-/-- factory `CreateMinter` (schedule checks only; the generator keeps every other argument valid) followed by the
-minter's `instantiate` -/
-def create (s : State) (sender : Addr) (start : Nat) (stop : Option Nat) (wl : Option Nat) (price limit : Nat)
-    (ntok : Option Nat) : Except Err Minter := do
-  if s.minter.isSome then throw .invalid
+/-- factory `CreateMinter` argument checks (all three factories: `num_tokens == 0 || num_tokens > max_token_limit`,
+open edition only when a cap is given; open edition: `OpenEditionMinterInitMsgExtension::validate`; the
+generator keeps every argument that is not modelled valid) followed by the time checks of the minter's `instantiate` -/
+def createSchedule (s : State) (start : Nat) (stop : Option Nat) (price : Nat) (ntok : Option Nat) : Except Err Unit :=
+  let badCount : Bool := match ntok with
+    | some n => decide (n = 0) || decide (n > s.params.maxTokenLimit)
+    | none => decide (s.v.family ≠ .openEdition)
+  if badCount then .error .invalid else
   match s.v.family with
   | .openEdition =>
-    -- OpenEditionMinterInitMsgExtension::validate
-    if start ≤ s.now then throw .invalid
-    match stop with
-    | some e => if e ≤ start then throw .invalid
-    | none => pure ()
-    if stop.isNone && ntok.isNone then throw .invalid
-    if price < s.params.minPrice then throw .payment
-    if ntok.isNone && price = 0 then throw .payment
-    if s.params.airdropPrice = 0 && ntok.isNone then throw .payment
-  | _ =>
-    if s.v.family = .vending && price < s.params.minPrice then throw .payment
-    if start < GENESIS then throw .invalid
-    if s.now > start then throw .invalid
-  let wl' : Option Nat ← (if s.v.family = .tokenMerge then pure none else
-    match wl with
-    | none => pure none
-    | some k =>
-      match s.wls k with
-      | none => throw Err.notFound
-      | some w => do
-        if !configParses s.v.shape w.kind then throw Err.invalid
-        if (w.config s.now).isActive then throw Err.tooLate
-        pure (some k))
-  let mintable : Option Nat :=
-    match s.v.family with
-    | .openEdition =>
-      match ntok with
-      | some n => some n
-      | none => if s.v.shape = .flex then none else some s.params.maxTokenLimit
-    | _ => some (ntok.getD 0)
-  pure { admin := sender, start := start, stop := if s.v.family = .openEdition then stop else none, wl := wl',
-         price := ⟨s.params.denom, price⟩, perAddr := limit, capped := s.v.family ≠ .openEdition || ntok.isSome,
-         mintable := mintable, pubCount := fun _ => 0, wlCount := fun _ => 0, stCount := fun _ _ => 0,
-         stTotal := fun _ => 0 }
+    if start ≤ s.now then .error .invalid
+    else if (match stop with | some e => decide (e ≤ start) | none => false) then .error .invalid
+    else if stop.isNone && ntok.isNone then .error .invalid
+    else if price < s.params.minPrice then .error .payment
+    else if ntok.isNone && decide (price = 0) then .error .payment
+    else if decide (s.params.airdropPrice = 0) && ntok.isNone then .error .payment
+    else .ok ()
+  | fam =>
+    if decide (fam = .vending) && decide (price < s.params.minPrice) then .error .payment
+    else if start < GENESIS then .error .invalid
+    else if s.now > start then .error .invalid
+    else .ok ()
+
+/-- `instantiate`: the optional whitelist must answer `Config {}` in the minter's dialect and must not be active -/
+def createWl (s : State) (wl : Option Nat) : Except Err (Option Nat) :=
+  if s.v.family = .tokenMerge then .ok none else
+  match wl with
+  | none => .ok none
+  | some k =>
+    match s.wls k with
+    | none => .error .notFound
+    | some w =>
+      if !configParses s.v.shape w.kind then .error .invalid
+      else if (w.config s.now).isActive then .error .tooLate
+      else .ok (some k)
+
+def createMintable (s : State) (ntok : Option Nat) : Option Nat :=
+  match s.v.family with
+  | .openEdition =>
+    match ntok with
+    | some n => some n
+    | none => if s.v.shape = .flex then none else some s.params.maxTokenLimit
+  | _ => some (ntok.getD 0)
+
+/-- factory `CreateMinter` + minter `instantiate` (one minter per world) -/
+def create (s : State) (sender : Addr) (start : Nat) (stop : Option Nat) (wl : Option Nat) (price limit : Nat)
+    (ntok : Option Nat) : Except Err Minter :=
+  if s.minter.isSome then .error .invalid else
+  match createSchedule s start stop price ntok with
+  | .error e => .error e
+  | .ok _ =>
+    match createWl s wl with
+    | .error e => .error e
+    | .ok wl' =>
+      .ok { admin := sender, start := start, stop := if s.v.family = .openEdition then stop else none, wl := wl',
+            price := ⟨s.params.denom, price⟩, perAddr := limit, capped := s.v.family ≠ .openEdition || ntok.isSome,
+            mintable := createMintable s ntok, pubCount := fun _ => 0, wlCount := fun _ => 0,
+            stCount := fun _ _ => 0, stTotal := fun _ => 0 }
 
 def withMinter (s : State) (f : Minter → Except Err Minter) : Except Err State :=
   match s.minter with
